@@ -2,6 +2,7 @@
 per branch, search-call wiring, caps and thresholds.  All read off the MIR paths of `compress`."""
 import re
 from mir import fmt, walk, strip_refs, callee_names, norm
+from binser import affine
 from flow import enum_paths, PathLimit, cond_truth
 
 
@@ -48,9 +49,9 @@ def bitslice(t, classify):
         while base[0] in ("ref", "deref"):
             base = base[1]
         if base[0] == "call" and len(base[2]) == 1:
-            m = re.search(r"<impl (u8|u16|u32|u64|i16|i32|i64)>::to_(be|le)_bytes$", base[1])
+            m = re.search(r"<impl (u8|u16|u32|u64|usize|i16|i32|i64)>::to_(be|le)_bytes$", base[1])
             if m:
-                n = {"u8": 1, "u16": 2, "i16": 2, "u32": 4, "i32": 4, "u64": 8, "i64": 8}[m.group(1)]
+                n = {"u8": 1, "u16": 2, "i16": 2, "u32": 4, "i32": 4, "u64": 8, "i64": 8, "usize": 8}[m.group(1)]
                 i = t[2][1]
                 if 0 <= i < n:
                     lo = 8 * (n - 1 - i) if m.group(2) == "be" else 8 * i
@@ -196,13 +197,77 @@ class Encoder:
         return None
 
     def header_bytes(self):
-        """Bytes pushed to the result buffer before the main loop (from any path)."""
+        """Bytes the result buffer holds before the main loop (from any path): `vec![..]` contents, pushes and
+        `extend_from_slice` of byte arrays (`n.to_le_bytes()[..3]`).  self.header_unknown is set when a piece
+        could not be resolved."""
         p = self.paths[0]
         out = []
+        self.header_unknown = None
+        in_loop = set()
+        for blks in self.body.loops().values():
+            in_loop |= set(blks)
+        pending = None
+
+        def elements(src):
+            """element terms of a slice expression, or None"""
+            t = strip_refs(src)
+            while t[0] == "cast":
+                t = strip_refs(t[1])
+            lo, hi = 0, None
+            if t[0] == "call" and "ops::Index" in t[1] and len(t[2]) == 2:
+                rg = strip_refs(t[2][1])
+                if rg[0] == "agg" and rg[2] and rg[2].startswith("std::ops::Range"):
+                    kind = rg[2].rsplit("::", 1)[-1]
+                    vals = [x[1] if x[0] == "const" else None for x in rg[4]]
+                    if None in vals:
+                        return None
+                    if kind == "RangeTo":
+                        hi = vals[0]
+                    elif kind == "Range":
+                        lo, hi = vals
+                    elif kind == "RangeFrom":
+                        lo = vals[0]
+                    elif kind != "RangeFull":
+                        return None
+                    t = strip_refs(t[2][0])
+                else:
+                    return None
+            n = None
+            if t[0] == "agg" and t[1] == "array":
+                els = list(t[4])
+            elif t[0] == "call" and len(t[2]) == 1:
+                m = re.search(r"<impl (u16|u32|u64|usize|i32|i64)>::to_(be|le)_bytes$", t[1])
+                if not m:
+                    return None
+                n = {"u16": 2, "u32": 4, "i32": 4, "u64": 8, "i64": 8, "usize": 8}[m.group(1)]
+                els = [("index", t, ("const", i, "usize")) for i in range(n)]
+            else:
+                return None
+            return els[lo:hi]
         for e in p.events:
-            if e["k"] == "call" and e["callee"] and e["callee"].endswith("::push") and e["callee"].startswith("std::vec::Vec"):
+            if e.get("bb") in in_loop:
+                break
+            if e["k"] == "write" and e["val"][0] == "agg" and e["val"][1] == "array" and any(x[0] == "call" and "new_uninit" in x[1] for x in walk(e["place"])):
+                pending = list(e["val"][4])
+            if e["k"] != "call" or not e["callee"]:
+                continue
+            c = e["callee"]
+            sh = c.rsplit("::", 1)[-1]
+            if sh in ("box_assume_init_into_vec_unsafe", "into_vec") and pending is not None:
+                out.extend(pending)
+                pending = None
+            elif c.endswith("vec::from_elem") and e["args"][1][0] == "const" and e["args"][1][1] <= 16 and not out and strip_refs(e["args"][0])[0] == "const" \
+                    and e.get("line") is not None and False:
+                out.extend([e["args"][0]] * e["args"][1][1])
+            elif sh == "push" and c.startswith("std::vec::Vec"):
                 out.append(e["args"][1])
-            if e["k"] == "call" and e["callee"] and (e["callee"].endswith("cmp::min") or e["callee"].endswith("Iterator>::next")):
+            elif sh == "extend_from_slice" and c.startswith("std::vec::Vec") and len(e["args"]) == 2:
+                els = elements(e["args"][1])
+                if els is None:
+                    self.header_unknown = "bytes appended from %s" % fmt(e["args"][1])[:60]
+                    break
+                out.extend(els)
+            if c.endswith("cmp::min") or c.endswith("Iterator>::next"):
                 break
         return out
 
@@ -269,22 +334,114 @@ class Encoder:
         return slots
 
     def search_args(self):
-        """Affine/structural view of the five arguments of the search call."""
-        return self.search["args"] if self.search else None
+        """The five arguments of the search call in a canonical form shared by every way of writing a cap:
+        `min(x, K)`, `if x > K {K} else {x}` (merged over the loop paths) and `x.saturating_sub(K)` (= x - min(x, K)).
+        None when the paths disagree in a way that is not one of these."""
+        if self.search is None:
+            return None
+        if getattr(self, "_sargs", None) is not None:
+            return self._sargs
+        per = []
+        for p in self.loop_paths():
+            ev = [e for e in p.events if e["k"] == "call" and e.get("callee") == self.search["callee"]]
+            if ev:
+                per.append((p, [rewrite_sat(a) for a in ev[-1]["args"]]))
+        if not per:
+            per = [(None, [rewrite_sat(a) for a in self.search["args"]])]
+        out = []
+        for i in range(5):
+            forms = {}
+            for p, args in per:
+                forms.setdefault(norm(args[i]), []).append((p, args[i]))
+            if len(forms) == 1:
+                out.append(list(forms.values())[0][0][1])
+                continue
+            merged = merge_select(forms)
+            if merged is None:
+                self._sargs = None
+                return None
+            out.append(merged)
+        # propagate: an argument built from another one that was merged (window start = pos - window length)
+        self._sargs = out
+        return out
 
     def caps(self):
-        """(look-ahead cap L, window cap W) from the min(.., const) arguments."""
+        """(look-ahead cap L, window cap W): the constants the look-ahead / window-length arguments are capped at."""
         a = self.search_args()
         if a is None:
             return None
 
         def cap(t):
-            t = strip_refs(t)
-            if t[0] == "call" and t[1].endswith("cmp::min") or (t[0] == "call" and t[1].endswith("Ord::min")):
-                for x in t[2]:
+            af = affine(t, None)
+            if af is None or af[1] != 0 or len(af[0]) != 1:
+                return None, None
+            (atom, coef), = af[0].items()
+            if coef == 1 and atom[0] == "call" and (atom[1].endswith("cmp::min") or atom[1].endswith("Ord::min")):
+                for x in atom[2]:
                     if x[0] == "const":
-                        return x[1], [y for y in t[2] if y[0] != "const"]
+                        return x[1], [y for y in atom[2] if y[0] != "const"]
             return None, None
         L, lrest = cap(a[2])
         W, wrest = cap(a[4])
         return {"L": L, "W": W, "lookahead_other": lrest, "window_other": wrest}
+
+
+MIN_NAME = "core::cmp::min"
+
+
+def mk_min(a, b):
+    return ("call", MIN_NAME, (a, b), None, MIN_NAME)
+
+
+def rewrite_sat(t):
+    """x.saturating_sub(y)  ->  x - min(x, y)   (exact on unsigned integers), recursively."""
+    if not isinstance(t, tuple) or not t:
+        return t
+    if t[0] == "call" and t[1].endswith("::saturating_sub") and len(t[2]) == 2:
+        a, b = rewrite_sat(t[2][0]), rewrite_sat(t[2][1])
+        return ("bin", "Sub", a, mk_min(a, b), None)
+    if t[0] == "call":
+        return (t[0], t[1], tuple(rewrite_sat(x) for x in t[2])) + tuple(t[3:])
+    if t[0] == "bin":
+        return (t[0], t[1], rewrite_sat(t[2]), rewrite_sat(t[3])) + tuple(t[4:])
+    if t[0] in ("cast", "ref", "deref", "field", "un"):
+        i = 2 if t[0] == "un" else 1
+        return t[:i] + (rewrite_sat(t[i]),) + tuple(t[i + 1:])
+    return t
+
+
+def merge_select(forms):
+    """{normed value: [(path, term)]} with exactly two values {K const, x}: if every path yielding K has decided
+    `x > K` (or `x >= K`) and every path yielding x has decided the opposite, the argument is min(x, K)."""
+    if len(forms) != 2:
+        return None
+    ks = [k for k in forms if k[0] == "const"]
+    xs = [k for k in forms if k[0] != "const"]
+    if len(ks) != 1 or len(xs) != 1:
+        return None
+    K, x = ks[0], xs[0]
+
+    def decided(p, want_big):
+        for (bb, term, vals, neg, dty) in p.conds:
+            ct = cond_truth((term, vals, neg, dty))
+            if not ct:
+                continue
+            t, truth = ct
+            if t[0] != "bin" or t[1] not in ("Gt", "Ge", "Lt", "Le"):
+                continue
+            l, r = norm(rewrite_sat(t[2])), norm(rewrite_sat(t[3]))
+            op = t[1]
+            if l == K and r == x:
+                l, r = r, l
+                op = {"Gt": "Lt", "Ge": "Le", "Lt": "Gt", "Le": "Ge"}[op]
+            if l != x or r != K:
+                continue
+            big = (op in ("Gt", "Ge")) == truth        # x is at least K (>= or >) on this path
+            if big == want_big:
+                return True
+        return False
+    if all(p is not None and decided(p, True) for p, t in forms[K]) and all(p is not None and decided(p, False) for p, t in forms[x]):
+        xt = forms[x][0][1]
+        kt = forms[K][0][1]
+        return mk_min(xt, kt)
+    return None
